@@ -1,5 +1,7 @@
 (* Proofs/IgnorePatFacts.v — small general facts about the linter-level matchers of Model/IgnorePat.v. *)
-From TL Require Import Lib.Base Model.CollectStr Model.Glob Model.Collect Model.CollectSpec Model.IgnorePat.
+From TL Require Import Lib.Base Model.CollectStr Model.Glob Model.Collect Model.CollectSpec Model.IgnorePat
+     Proofs.CollectStrFacts Proofs.GlobFacts Proofs.CollectIgnoreStr.
+From TL Require Model.PyStr.
 
 (* a linter of the `never` kind honours no pattern at all *)
 Lemma never_ignores_nothing path pats : linter_file_ignored MNever path pats = false.
@@ -22,3 +24,102 @@ Proof.
       rewrite E in P. now rewrite P.
   - cbn [PyStr.containsb]. rewrite IH. apply orb_true_r.
 Qed.
+
+(* ---------- `*suffix` patterns in a linter-level ignore list ---------- *)
+(* Path(p).parts of an absolute normalised path *)
+Lemma path_parts_abs comps : comps_ok comps -> path_parts (String slash (pjoin comps)) = "/"%string :: comps.
+Proof.
+  intros [Hne Hok]. unfold path_parts. rewrite la_cons, la_pjoin. rewrite aeqb_refl.
+  cbn [lsplit]. rewrite aeqb_refl. cbn [rev filter lnil negb andb app]. f_equal.
+  assert (P := comps_ok_plain _ Hok).
+  rewrite lsplit_ljoin; [|destruct comps; [congruence|discriminate]|exact P].
+  rewrite filter_id; [apply map_sa_la|].
+  intros y Hy. apply in_map_iff in Hy. destruct Hy as [n [<- Hn]]. rewrite forallb_forall in Hok.
+  destruct (comp_ok_props n (Hok n Hn)) as [H1 [_ H3]]. rewrite H3. destruct (la n); [congruence|reflexivity].
+Qed.
+
+Lemma path_norm_abs comps : comps_ok comps -> path_norm (String slash (pjoin comps)) = String slash (pjoin comps).
+Proof. intro H. unfold path_norm. rewrite (path_parts_abs comps H). reflexivity. Qed.
+
+Lemma pjoin_one x : pjoin [x] = x.
+Proof. unfold pjoin. cbn [map ljoin]. apply sa_la. Qed.
+
+Lemma skipn_last {A} (x : A) l d : skipn (List.length l) (x :: l) = [last (x :: l) d].
+Proof.
+  revert x. induction l as [|y l IH]; intro x; [reflexivity|].
+  cbn [List.length skipn]. rewrite (IH y). reflexivity.
+Qed.
+
+(* a needle occurs in a text only if its first character does *)
+Lemma containsb_head c n t : PyStr.containsb (String c n) t = true -> In c (la t).
+Proof.
+  induction t as [|d t IH]; cbn [PyStr.containsb PyStr.prefixb]; intro H.
+  - discriminate.
+  - apply orb_true_iff in H as [H|H].
+    + apply andb_true_iff in H as [E _]. apply Ascii.eqb_eq in E. subst d. rewrite la_cons. now left.
+    + rewrite la_cons. right. now apply IH.
+Qed.
+
+Lemma in_ljoin c cs : In c (ljoin cs) -> c = slash \/ exists x, In x cs /\ In c x.
+Proof.
+  induction cs as [|x r IH]; [intros []|].
+  destruct r as [|y r'].
+  - cbn [ljoin]. intro H. right. exists x. split; [now left|exact H].
+  - rewrite ljoin_cons by discriminate. rewrite in_app_iff. intros [H|[H|H]].
+    + right. exists x. split; [now left|exact H].
+    + now left.
+    + destruct (IH H) as [E|[z [Hz Hc]]]; [now left|]. right. exists z. split; [now right|exact Hc].
+Qed.
+
+Definition star_free (comps : list string) : bool := forallb (fun n => negb (has_char c_star n)) comps.
+
+Lemma no_star_in_path comps n : star_free comps = true -> PyStr.containsb (String c_star n) (String slash (pjoin comps)) = false.
+Proof.
+  intro F. destruct (PyStr.containsb (String c_star n) (String slash (pjoin comps))) eqn:E; [|reflexivity]. exfalso.
+  apply containsb_head in E. rewrite la_cons, la_pjoin in E. destruct E as [E|E]; [discriminate|].
+  apply in_ljoin in E as [E|[x [Hx Hc]]]; [discriminate|].
+  apply in_map_iff in Hx as [m [<- Hm]]. unfold star_free in F. rewrite forallb_forall in F. specialize (F m Hm).
+  apply negb_true_iff in F. unfold has_char in F. apply amem_In in Hc. congruence.
+Qed.
+
+(* the suffix text of a `*suffix` pattern: a component text of literal characters *)
+Definition suffix_ok (s : string) : Prop := plain (la s) /\ ~ In slash (la s).
+
+Lemma star_comp_ok s : suffix_ok s -> comps_ok [("*" ++ s)%string].
+Proof.
+  intros [_ Hs]. split; [discriminate|]. cbn [forallb]. rewrite andb_true_r. unfold comp_ok.
+  assert (H1 : nonempty ("*" ++ s) = true) by reflexivity. rewrite H1. cbn [andb].
+  assert (H2 : has_char slash ("*" ++ s) = false).
+  { unfold has_char. destruct (amem slash (la ("*" ++ s))) eqn:E; [|reflexivity]. apply amem_In in E.
+    change ("*" ++ s)%string with (String c_star s) in E. rewrite la_cons in E. destruct E as [E|E]; [discriminate|contradiction]. }
+  rewrite H2. reflexivity.
+Qed.
+
+Theorem path_match_suffix comps s : comps_ok comps -> suffix_ok s ->
+  path_match (String slash (pjoin comps)) ("*" ++ s) = ends_with (last comps "") s.
+Proof.
+  intros Hc Hs. unfold path_match.
+  assert (E : path_parts ("*" ++ s) = [("*" ++ s)%string]).
+  { rewrite <- (pjoin_one ("*" ++ s)) at 1. apply path_parts_pjoin. now apply star_comp_ok. }
+  rewrite E, (path_parts_abs comps Hc).
+  assert (N : ("*" ++ s =? "/")%string = false) by reflexivity. rewrite N.
+  cbn [List.length Nat.sub]. rewrite Nat.sub_0_r. change (1 <=? S (List.length comps)) with true. cbn [andb].
+  rewrite (skipn_last "/"%string comps ""%string). cbn [parts_match]. rewrite andb_true_r.
+  destruct Hc as [Hne _]. destruct comps as [|x r]; [congruence|].
+  change (last ("/"%string :: x :: r) ""%string) with (last (x :: r) ""%string).
+  apply fnm_star_lit. exact (proj1 Hs).
+Qed.
+
+(* the linters whose matcher is `Path.match(pattern) or pattern in str(path)`: a `*suffix` pattern silences exactly the files whose
+   name ends with the suffix (the documented meaning), at any depth, provided no directory or file name contains a `*` *)
+Theorem path_or_sub_suffix_exact comps s : comps_ok comps -> suffix_ok s -> star_free comps = true ->
+  lmatch MPathOrSub (String slash (pjoin comps)) (render (PSuffix s)) = spec_match (PSuffix s) comps.
+Proof.
+  intros Hc Hs F. cbn [lmatch render spec_match]. rewrite (path_match_suffix comps s Hc Hs), (path_norm_abs comps Hc).
+  unfold substring. change ("*" ++ s)%string with (String c_star s). rewrite (no_star_in_path comps s F). apply orb_false_r.
+Qed.
+
+(* ... while the substring matchers never honour it *)
+Theorem sub_suffix_never comps s : star_free comps = true ->
+  lmatch MSub (String slash (pjoin comps)) (render (PSuffix s)) = false.
+Proof. intro F. cbn [lmatch render]. unfold substring. change ("*" ++ s)%string with (String c_star s). now apply no_star_in_path. Qed.
